@@ -94,7 +94,7 @@ func genC06(r *sim.Rand, tier string) *sim.Program {
 		case 6:
 			p.Add("extend", s, 1+r.Intn(4))
 		case 7, 8, 9:
-			p.Add("field", s, r.Intn(2), r.Intn(9)) // which integer, replacement kind
+			p.Add("field", s, r.Intn(2), r.Intn(12)) // which integer, replacement kind
 		case 10:
 			p.Add("cross", s, r.Intn(4))
 		case 11:
@@ -233,6 +233,18 @@ func execC06(t *testing.T, p *sim.Program, c *sim.Ctx) {
 			uid, msg := op.Bytes(0), op.Bytes(1)
 			if len(uid) > 8191 {
 				uid = uid[:8191]
+			}
+			if len(uid) == 0 {
+				// "no identifier" has three representations in Go; all of them mean the default identifier
+				switch op.Int(1) % 3 {
+				case 0:
+					uid = nil
+				case 1:
+					uid = []byte{}
+				default:
+					uid = []byte("spare")[:0]
+				}
+				c.Hit("probe:empty-identifier-representations")
 			}
 			nonce := derive(append([]byte(fmt.Sprint(op.Int(1))), p.CB("d")...), "nonce", 64)
 			nonce[0] &= 0x7f
@@ -635,6 +647,12 @@ func execC06(t *testing.T, p *sim.Program, c *sim.Ctx) {
 				raw = b
 			case 7: // n-1
 				v.Sub(n, big.NewInt(1))
+			case 9: // the value plus a multiple of 2^256 whose low octet is zero: 01 00 || value (33 / 34 octets, strict DER)
+				v.Add(orig, new(big.Int).Lsh(big.NewInt(1), 264))
+			case 10:
+				v.Add(orig, new(big.Int).Lsh(big.NewInt(0x0300), 256+8))
+			case 11: // the value plus 2^256 (one extra octet 01)
+				v.Add(orig, new(big.Int).Lsh(big.NewInt(1), 256))
 			default:
 				v.SetInt64(1)
 			}
